@@ -5,21 +5,29 @@ from .. import common as C
 from ..lbgen import enc
 
 ID = "C10"
-MODULES = ["Helios.Props.C10", "Helios.Props.Facts"]
+MODULES = ["Helios.Props.C10", "Helios.Props.Facts", "Helios.Props.CodeAdm"]
 THEOREMS = ["Helios.Admin.bearer_exact", "Helios.Admin.auth_exact", "Helios.Admin.health_only_open",
             "Helios.Admin.no_token_no_401", "Helios.Admin.ip_policy", "Helios.Admin.deny_wins",
             "Helios.Admin.unparsable_refused", "Helios.Admin.malformed_list_fails_closed",
             "Helios.Admin.header_independent", "Helios.Admin.unauth_no_effect",
-            "Helios.Facts.routes_eq", "Helios.Facts.ip_filter_closed", "Helios.Facts.extraction_clean"]
+            "Helios.Facts.routes_eq", "Helios.Facts.ip_filter_closed", "Helios.Facts.extraction_clean",
+            # Tie C: IPFilter.IsAllowed, translated from the source on every run
+            "Helios.CodeTie.IsAllowed_refines", "Helios.CodeTie.IsAllowed_deny_wins", "Helios.CodeTie.IsAllowed_unparsable",
+            "Helios.CodeTie.translation_clean_adm"]
 
 PATHS = ["/v1/health", "/v1/metrics", "/v1/backends", "/v1/backends/add", "/v1/backends/remove", "/v1/strategy"]
 ODD_PATHS = ["/v1/unknown", "/v1/backends/", "/", "/v1/health/", "/v1", "/V1/backends", "/v1/backends/add/x"]
-TOKENS = ["-", "s3cr3t", "tok en", "Bearer", "t"]
+LONG_TOKEN = "eyJhbGciOiJIUzI1NiJ9." + "p4yl0ad" * 40 + "." + "s1gnatur3" * 6          # a JWT-sized secret (355 bytes)
+TOKENS = ["-", "s3cr3t", "tok en", "Bearer", "t", LONG_TOKEN, "k" * 129]
 NETS4 = ["10.0.0.0/8", "192.168.1.0/24", "192.168.1.5", "203.0.113.0/30", "10.1.2.3/8", "0.0.0.0/0", "127.0.0.1"]
 NETS6 = ["2001:db8::/32", "::1", "fe80::/10", "2001:db8:0:1::/64", "2001:db8:0:1::10", "2001:db9:5::7", "::2"]
 # ranges that share their first address: a narrower one listed before (or after) a wider one
 NESTED = [["203.0.113.0/28", "203.0.113.0/24"], ["10.0.0.0", "10.0.0.0/8"], ["2001:db8::/64", "2001:db8::/32"], ["192.168.1.0/30", "192.168.1.0/24", "192.168.0.0/16"],
           ["2001:db8::", "2001:db8::/112"], ["10.1.0.0/16", "10.0.0.0/8"]]
+# list entries written in the IPv4-mapped IPv6 form: an IPv4 host / network (Go's net package and the model agree that a
+# mapped address IS the IPv4 address; a mapped entry with a prefix shorter than 96 is an IPv6 network and holds no IPv4 peer)
+MAPPED = ["::ffff:10.0.0.5", "::ffff:192.168.1.0/120", "::ffff:10.0.0.0/104", "::ffff:203.0.113.7/128", "::FFFF:127.0.0.1", "::ffff:a00:5",
+          "0:0:0:0:0:ffff:10.0.0.6", "::ffff:0:0/90"]
 BADNETS = ["not-an-ip", "10.0.0.0/33", "10.0.0/8", "10.0.0.0/", "/8", "2001:db8::/129", "1.2.3.4.5", "", " ", "\t", "", " "]
 
 
@@ -28,6 +36,8 @@ def parsed_net(s):
         n = ipaddress.ip_network(s, strict=False)
     except ValueError:
         return "x"
+    if n.version == 6 and n.prefixlen >= 96 and n.network_address.ipv4_mapped is not None:
+        return "4.%d.%d" % (int(n.network_address.ipv4_mapped), n.prefixlen - 96)
     return "%d.%d.%d" % (n.version, int(n.network_address), n.prefixlen)
 
 
@@ -57,6 +67,9 @@ def peer(rng, nets):
                 v = ipaddress.ip_address(cand) if net.version == 4 else ipaddress.IPv6Address(cand)
         except ValueError:
             pass
+    if v is None and rng.random() < 0.15:
+        # IPv6 addresses whose first 32 bits are zero (what a list entry mis-read as ::/32 would cover)
+        v = ipaddress.IPv6Address(rng.choice([1, 5, (1 << 80) + 5, (0xfffe << 32) + 7, 1 << 95]))
     if v is None:
         v = ipaddress.ip_address(rng.getrandbits(32)) if rng.random() < 0.7 else ipaddress.ip_address(rng.getrandbits(128))
     if v.version == 4:
@@ -74,6 +87,12 @@ def peer(rng, nets):
 
 def authz(rng, tok):
     t = "x" if tok == "-" else tok
+    if len(t) > 20 and rng.random() < 0.5:
+        # wrong credentials of the right length that agree with the secret on a long prefix (a rotated-out token, a
+        # truncated compare, a fixed-size buffer): exact means every byte
+        k = rng.choice([8, 16, 32, 64, 127, 128, len(t) - 1])
+        k = min(k, len(t) - 1)
+        return "Bearer " + t[:k] + "".join("Z" if c != "Z" else "Y" for c in t[k:])
     return rng.choice(["Bearer " + t] * 4 + ["bearer " + t, "Bearer  " + t, "Bearer " + t + " ", "Bearer" + t, t, "Basic " + t,
                                              "-", "Bearer ", " Bearer " + t, "Bearer " + t + "x", "BEARER " + t, "Bearer\t" + t])
 
@@ -85,6 +104,8 @@ def gen_episode(rng, long=False):
     if mode > 0.25:
         allow = rng.sample(NETS4 + NETS6, rng.randint(0, 3))
         deny = rng.sample(NETS4 + NETS6, rng.randint(0, 2))
+        if rng.random() < 0.25:
+            (allow if rng.random() < 0.5 else deny).insert(0, rng.choice(MAPPED))
         if rng.random() < 0.2:
             (allow if rng.random() < 0.5 else deny).insert(rng.randint(0, 1), rng.choice(BADNETS))
         if rng.random() < 0.3:
